@@ -42,7 +42,7 @@ def gen_cases(tier, seed):
             "maxpkt": 128,
             "size": size,
             "content": rng.choice([0, 1, 2, 3, "zeros", "ramp"]),
-            "dest": rng.choice(["file", "file", "existing", "dir"]),
+            "dest": rng.choice(["file", "file", "existing", "dir", "dir_existing"]),
             "ack_limit": rng.choice([2, 3, 6]),
             "nak_limit": rng.choice([2, 3, 6]),
             "check_limit": rng.choice([1, 2, 4]),
